@@ -165,6 +165,10 @@ def main(ctx):
     longs = [b for ln in lines for b in [e["b"] for e in ln["ev"] if e["a"] == "send"] if len(b) > 40][:2]
     if shorts and longs:
         streams.append(list(longs[0]) + list(shorts[0]) + list(longs[-1]) + list(shorts[-1]))
+    if longs:
+        # a NOP frame (command 0x0000, no payload: its first octet is zero) between and after reply frames
+        nop = [0, 0, 0, 0, 1, 0, 0, 0, 0, 0, 0, 0, 9, 8, 7, 6, 5, 4, 3, 2, 0, 0, 0, 0]
+        streams.append(list(longs[0]) + nop + list(longs[-1]) + nop)
     cjobs = []
     for st in streams:
         L = len(st)
